@@ -581,6 +581,13 @@ def att_eval(ctx, sts):
         "se23_attitude_control": (call(F.se23att, [one, zeta])[0], call(F.se23att, [kiso * one, zeta])[0], kiso * one),
     }
     run.count("evaluations", 8 * n)
+    # the same attitudes handed over as quaternions that are not exactly of unit length (an estimator output scaled by
+    # 1.03, a reference scaled by 0.9): they denote the same rotations, so the commands must be the same
+    sq = pick(K, 44, [1.03, 0.9, 1.0]); sr = pick(K, 45, [0.9, 1.0, 1.03])
+    Qs, QRs = Q * sq, QR * sr
+    zeta_s = call(F.se23err, [pv, vv, Qs, pv, vv, QRs])[0]
+    scaled = {"attitude_control": call(F.att, [one, Qs, QRs])[0], "so3_attitude_control": call(F.so3att, [one, Qs, QRs])[0],
+              "se23_error": zeta_s[6:9], "se23_attitude_control": call(F.se23att, [one, zeta_s])[0]}
     with np.errstate(invalid="ignore"):
         pos_ok = np.max(np.abs(zeta[0:6]), axis=0) <= TOL
     for k in np.nonzero(~pos_ok & ~excl & np.all(np.isfinite(zeta), axis=0))[0]:
@@ -627,6 +634,16 @@ def att_eval(ctx, sts):
                 run.err(float(np.max(np.abs(c1[:, k] - rv[:, k]))))
             if not g_ok[k]:
                 run.violation(f"{name}/gain_scaling/{c}", "command with gains is not the unit-gain command scaled by the gains", data())
+            cs_ = scaled[name][:, k]
+            if exact_pi[k]:         # half turn: either direction of the rotation vector is right, rounding decides
+                ok_s = np.all(np.isfinite(cs_)) and abs(float(np.linalg.norm(cs_)) - math.pi) <= 1e-9
+                if not ok_s:
+                    run.violation(f"{name}/quaternion_scale/exact_pi", "half-turn error with non-unit quaternions: |command| is not pi", data())
+            elif not (np.all(np.isfinite(cs_)) and np.max(np.abs(cs_ - c1[:, k])) <= TOL * max(1.0, float(np.max(np.abs(c1[:, k]))))):
+                run.violation(f"{name}/quaternion_scale/{c}", "the command changes when the same attitudes are given as quaternions of length 1.03 / 0.9 "
+                              "(same rotations)", ctx.payload(st, {"function": name, "q_scale": float(sq[0, k] if sq.ndim > 1 else sq[k]),
+                                                                  "q_r_scale": float(sr[0, k] if sr.ndim > 1 else sr[k]),
+                                                                  "command": c1[:, k].tolist(), "command_scaled_inputs": cs_.tolist()}))
     return int(np.sum(excl))
 
 
